@@ -158,7 +158,9 @@ func c14FeedList(k, sym int, scheme int, stops []string) (*gtfs.Realtime, []spec
 			sj := int(s[0] - 'A')
 			if stops != nil {
 				sj = 0
-				fmt.Sscanf(s, "S%d", &sj)
+				if n, _ := fmt.Sscanf(s, "S%d", &sj); n != 1 {
+					sj = int(s[0] - 'A')
+				}
 			}
 			_ = j
 			a := time.Unix(int64(c14T0+60*kt+1000+10*sj), 0).UTC()
@@ -219,10 +221,16 @@ func specApply(L []specStop, U []specStop, t time.Time) [][]specStop {
 }
 
 func observedList(j *journal.Journal) ([]specStop, *journal.Trip, bool) {
-	if len(j.Trips) == 0 {
+	// the trip under study (a companion trip, where a scenario adds one, has another id)
+	var t *journal.Trip
+	for i := range j.Trips {
+		if j.Trips[i].TripID == "063000_L..N01" {
+			t = &j.Trips[i]
+		}
+	}
+	if t == nil {
 		return nil, nil, false
 	}
-	t := &j.Trips[0]
 	var l []specStop
 	for i := range t.StopTimes {
 		s := &t.StopTimes[i]
@@ -405,6 +413,79 @@ func c14Shallow(maxLen int) Harness {
 				c.Witness("stop_occurs_twice_in_list")
 			}
 		}
+	}
+}
+
+// c14TwoTrips: the trip under study next to a companion trip that comes and goes on its own
+// (present / absent per feed), over the lists of <= 2 stops from {A,B}; optionally with stop ids
+// that differ only in a trailing direction letter (A = M11N, B = M11S). What happens to one trip
+// must not depend on the other.
+var c14SmallLists = [][]string{{}, {"A"}, {"B"}, {"A", "B"}, {"B", "A"}, {"A", "A"}, {"B", "B"}}
+
+func c14TwoTrips(maxLen int) Harness {
+	return func(c *Ctx) {
+		h := 1 + c.Free("history_length", maxLen)
+		names := c.Free("stop_ids", 2) // 0: A, B; 1: M11N, M11S
+		rename := map[string]string{"A": "A", "B": "B"}
+		if names == 1 {
+			rename = map[string]string{"A": "M11N", "B": "M11S"}
+		}
+		var syms, comp []int
+		var hn []string
+		for k := 0; k < h; k++ {
+			s := c.Free(fmt.Sprintf("feed[%d]", k), 2+len(c14SmallLists))
+			p := c.Free(fmt.Sprintf("feed[%d].companion_present", k), 2)
+			syms, comp = append(syms, s), append(comp, p)
+			n := "omitted"
+			if s == 1 {
+				n = "unassigned"
+			} else if s >= 2 {
+				n = fmt.Sprint(c14SmallLists[s-2])
+			}
+			hn = append(hn, fmt.Sprintf("%s/companion=%d", n, p))
+		}
+		hist := fmt.Sprintf("stop ids %d: %s", names, strings.Join(hn, " -> "))
+		c.Input(hash64(hist), h >= 2, func() string { return hist })
+		var feeds []*gtfs.Realtime
+		var mirrors [][]specStop
+		var specSyms []int
+		for k, s := range syms {
+			sym := s
+			var stops []string
+			if s >= 2 {
+				sym = 2
+				stops = c14SmallLists[s-2]
+			}
+			f, m := c14FeedList(k, sym, 0, stops)
+			// rename the stops in the feed and in the mirror alike
+			for ti := range f.Trips {
+				for ui := range f.Trips[ti].StopTimeUpdates {
+					v := rename[*f.Trips[ti].StopTimeUpdates[ui].StopID]
+					f.Trips[ti].StopTimeUpdates[ui].StopID = &v
+				}
+			}
+			for i := range m {
+				m[i].stop = rename[m[i].stop]
+			}
+			if comp[k] == 1 {
+				x := "X"
+				f.Trips = append(f.Trips, gtfs.Trip{ID: gtfs.TripID{ID: "070000_L..N02", RouteID: "L", DirectionID: gtfs.DirectionID_True, HasStartDate: true, StartDate: c14Start.Add(-7 * time.Hour),
+					HasStartTime: true, StartTime: 7 * time.Hour}, Vehicle: &gtfs.Vehicle{ID: &gtfs.VehicleID{ID: "veh2"}}, StopTimeUpdates: []gtfs.StopTimeUpdate{{StopID: &x}}, IsEntityInMessage: true})
+			}
+			feeds = append(feeds, f)
+			mirrors = append(mirrors, m)
+			specSyms = append(specSyms, sym)
+		}
+		st := &c14State{}
+		for k := range syms {
+			if !st.step(c, k, specSyms[k], mirrors[k], feeds, hist) {
+				return
+			}
+		}
+		if len(st.cands) == 1 {
+			c.Outcome(specListString(st.cands[0]))
+		}
+		c.Witness("trip_next_to_a_companion_trip")
 	}
 }
 
@@ -607,7 +688,7 @@ func init() {
 	register(&Check{
 		ID:    "C14",
 		Level: "model_checking",
-		Rule: "lists of 9 / 17 / 33 / 65 stops: all histories of <= 3 feeds over 9 window symbols (omitted, all, all but the first, second half, last, first half, all + 3 new, second half + 3 new, no stops); one trip; feed symbols {trip omitted, unassigned [AB], assigned x every list over {A,B,C} of length <= 3 (40 lists)} = 42; ALL histories of <= 3 feeds (thorough <= 4), each under 7 value schemes (updates flagged NO_DATA / SKIPPED; unique per feed; optional values absent; times constant while the track changes; track constant while times change; all constant) and 4 feed-time schemes (60 s apart; all equal; no timestamps; decreasing), one deviation at a time, journal built for every prefix; plus explicit-state BFS to the fixpoint over histories starting with an assigning feed, states canonicalised to (stop id, marked?)* + trip-marked flag; " +
+		Rule: "the trip next to a companion trip that is present or absent per feed, lists of <= 2 stops over {A,B} or {M11N,M11S}: all histories of <= 3 feeds; lists of 9 / 17 / 33 / 65 stops: all histories of <= 3 feeds over 9 window symbols (omitted, all, all but the first, second half, last, first half, all + 3 new, second half + 3 new, no stops); one trip; feed symbols {trip omitted, unassigned [AB], assigned x every list over {A,B,C} of length <= 3 (40 lists)} = 42; ALL histories of <= 3 feeds (thorough <= 4), each under 7 value schemes (updates flagged NO_DATA / SKIPPED; unique per feed; optional values absent; times constant while the track changes; track constant while times change; all constant) and 4 feed-time schemes (60 s apart; all equal; no timestamps; decreasing), one deviation at a time, journal built for every prefix; plus explicit-state BFS to the fixpoint over histories starting with an assigning feed, states canonicalised to (stop id, marked?)* + trip-marked flag; " +
 			"non-trivial = distinct histories of >= 2 feeds; oracle = nondeterministic specification automaton (set of admissible lists, refined by each observation)",
 		Assumptions: []string{"when the update's first stop is not in the list, or the update is empty, any prefix of the old list may be kept (the statement only constrains the case where the first stop is present)", "BFS state merging is sound because the journal code branches only on stop ids, nil-ness of marks and the assigned/active flags"},
 		Scenarios: func(tier string) []*Scenario {
@@ -615,7 +696,7 @@ func init() {
 			if tier == "thorough" {
 				n = 4
 			}
-			return []*Scenario{{Name: fmt.Sprintf("all-histories<=%d", n), Bound: 1, Run: c14Shallow(n)}, {Name: "bfs-fixpoint", Bound: 0, Run: c14Deep}, {Name: "long-lists<=3", Bound: -1, Run: c14LongLists(3)}}
+			return []*Scenario{{Name: fmt.Sprintf("all-histories<=%d", n), Bound: 1, Run: c14Shallow(n)}, {Name: "bfs-fixpoint", Bound: 0, Run: c14Deep}, {Name: "long-lists<=3", Bound: -1, Run: c14LongLists(3)}, {Name: "two-trips<=3", Bound: -1, Run: c14TwoTrips(3)}}
 		},
 	})
 }
